@@ -35,7 +35,7 @@ func init() {
 		Batches: tiered(120, 2400),
 		Run:     runC18,
 		Race:    true,
-		Timeout: timeoutFor(10*time.Minute, 45*time.Minute),
+		Timeout: timeoutFor(3*time.Minute, 45*time.Minute),
 	})
 }
 
@@ -522,6 +522,9 @@ func c18Concurrent(w *h.W, batch int) {
 			wg.Add(1)
 			go caller(i, callerRngs[i])
 		}
+		// bounded progress: callers inside the cache must keep completing lookups (a waiter parked on a load that never
+		// finishes would otherwise also freeze the barrier below)
+		stopWatch := w.StallWatch("C18:stall", 30*time.Second, gets.Load, func() bool { return callersDone.Load() < int64(callers) }, desc)
 		// checker: quiescent barriers + cache release/creation
 		deadline := time.Now().Add(4 * time.Minute)
 		for b := 0; ; b++ {
@@ -584,6 +587,7 @@ func c18Concurrent(w *h.W, batch int) {
 		}
 		stop.Store(true)
 		wg.Wait()
+		stopWatch()
 		hk.Uninstall()
 		runtime.GOMAXPROCS(prev)
 		hits := ctl.Counts()
